@@ -521,3 +521,123 @@ Section Decide.
   Theorem machine_sem_dec q : cleanb [] q = true -> run_machine s q = Some (sem s [] q).
   Proof. intros H. apply machine_sem, cleanb_clean, H. Qed.
 End Decide.
+
+(** * A syntactic sufficient condition: plain constraint lists
+   A constraint is plain for a result type and a role when the evaluator model gives it the
+   meaning of [csat] in that role and, as first constraint, delivers its candidates in store
+   order: no UNION, and none of the (type, form, role) combinations of the known classes
+   (routes through AnnotationSelectors, special sources, TEXT literal written first, RELATION as a
+   filter of TEXT queries). *)
+Definition kind_of (it : item) : rtype :=
+  match it with
+  | IAnn _ => TAnn | IData _ _ => TData | IKey _ _ => TKey
+  | IRes _ => TRes | ISet _ => TSet | IText _ _ _ => TText
+  end.
+
+Definition plain_c (rt : rtype) (primary : bool) (c : cst) : bool :=
+  match c with
+  | CUnion _ => false
+  | CRes _ _ => match rt with TAnn => primary | TText => negb primary | _ => true end
+  | CText _ _ => match rt with TAnn | TText => negb primary | _ => true end
+  | CAnn _ m => match rt with
+                | TAnn => negb primary || m
+                | TData => negb m && negb primary
+                | TKey => negb m
+                | TText => negb primary
+                | _ => true
+                end
+  | CKey _ _ _ | CKeyVal _ _ _ _ | CDataVar _ _ | CKeyVar _ _ =>
+      match rt with TRes => negb primary | _ => true end
+  | CRel _ _ => match rt with TText => false | _ => true end
+  | CTextVar _ => match rt with TText => negb primary | _ => true end
+  | _ => true
+  end.
+
+Definition plain_l (rt : rtype) (cs : list cst) : bool :=
+  match cs with
+  | [] => true
+  | c :: r => plain_c rt true c && forallb (plain_c rt false) r
+  end.
+
+Section Plain.
+  Variable s : store.
+
+  Lemma universe_kind rt it : In it (universe s rt) -> kind_of it = rt.
+  Proof.
+    destruct rt; cbn [universe]; intros H.
+    - apply in_map_iff in H. destruct H as (h & <- & _). reflexivity.
+    - apply in_flat_map in H. destruct H as (d & _ & H). destruct (get_set s d); [|contradiction].
+      apply in_map_iff in H. destruct H as (h & <- & _). reflexivity.
+    - apply in_flat_map in H. destruct H as (d & _ & H). destruct (get_set s d); [|contradiction].
+      apply in_map_iff in H. destruct H as (h & <- & _). reflexivity.
+    - apply in_map_iff in H. destruct H as (h & <- & _). reflexivity.
+    - apply in_map_iff in H. destruct H as (h & <- & _). reflexivity.
+    - apply in_map_iff in H. destruct H as (h & <- & _). reflexivity.
+  Qed.
+
+  Lemma plain_sat e rt primary c it : plain_c rt primary c = true -> kind_of it = rt ->
+    csat_impl s e primary c it = csat s e c it.
+  Proof.
+    intros H Hk. destruct it; cbn in Hk; subst rt; destruct c; cbn in H; try discriminate;
+      try reflexivity;
+      repeat match goal with
+             | b : bool |- _ => destruct b; cbn in H; try discriminate; try reflexivity
+             end.
+  Qed.
+
+  Lemma plain_src e rt c : plain_c rt true c = true ->
+    src s e rt c = filter (fun it => csat_impl s e true c it) (universe s rt).
+  Proof.
+    intros H. destruct rt, c; cbn in H; try discriminate; try reflexivity;
+      repeat match goal with
+             | b : bool |- _ => destruct b; cbn in H; try discriminate; try reflexivity
+             end.
+  Qed.
+
+  Theorem plain_level e rt cs lim : plain_l rt cs = true ->
+    level_impl s e rt cs lim = level s e rt cs lim.
+  Proof.
+    intros H. unfold level_impl, level. f_equal. destruct cs as [|c r].
+    - cbn. induction (universe s rt) as [|a l IH]; cbn; [reflexivity|]. f_equal. exact IH.
+    - cbn [plain_l] in H. apply andb_true_iff in H. destruct H as [Hc Hr].
+      rewrite (plain_src e rt c Hc), filter_filter.
+      apply filter_ext_in. intros it Hit. pose proof (universe_kind rt it Hit) as Hk.
+      unfold all_sat. cbn [forallb]. rewrite (plain_sat e rt true c it Hc Hk). f_equal.
+      rewrite forallb_forall in Hr.
+      induction r as [|c' r IH]; cbn [forallb]; [reflexivity|].
+      rewrite (plain_sat e rt false c' it (Hr c' (or_introl eq_refl)) Hk). f_equal.
+      apply IH. intros x Hx. apply Hr. right; exact Hx.
+  Qed.
+
+  (* plain at every level, every reached level opens, no reached OPTIONAL sub-query without rows *)
+  Fixpoint guard (e : env) (q : query) {struct q} : bool :=
+    match q with
+    | Q n rt cs lim o sub =>
+        lvres_ok (scan_level s e rt true cs) && plain_l rt cs
+        && match sub with
+           | None => true
+           | Some sq =>
+               forallb (fun it => guard (e ++ [(n, it)]) sq
+                                  && (negb (q_opt sq) || negb (is_nil (sem s (e ++ [(n, it)]) sq))))
+                       (level s e rt cs lim)
+           end
+    end.
+
+  Lemma guard_clean : forall q e, guard e q = true -> clean s e q.
+  Proof.
+    induction q as [n rt cs lim o|n rt cs lim o sq IH] using query_ind'; intros e H; cbn [guard] in H;
+      rewrite !andb_true_iff in H; destruct H as [[H1 H2] H3]; cbn [clean].
+    - split; [destruct (scan_level s e rt true cs); try discriminate; reflexivity|].
+      split; [apply plain_level, H2|exact I].
+    - split; [destruct (scan_level s e rt true cs); try discriminate; reflexivity|].
+      split; [apply plain_level, H2|].
+      intros it Hit. rewrite forallb_forall in H3. specialize (H3 it Hit).
+      rewrite andb_true_iff in H3. destruct H3 as [H4 H5]. split; [apply IH, H4|].
+      intros Ho. rewrite Ho in H5. cbn in H5. intros Hnil. rewrite Hnil in H5. discriminate.
+  Qed.
+
+  (** on plain queries whose levels open and whose OPTIONAL sub-queries have rows, the evaluator
+      model returns [sem] *)
+  Theorem machine_sem_plain q : guard [] q = true -> run_machine s q = Some (sem s [] q).
+  Proof. intros H. apply machine_sem, guard_clean, H. Qed.
+End Plain.
